@@ -236,6 +236,7 @@ Section Loop.
       rewrite (err_step err x (Z.of_nat k + 2) He ltac:(lia) ltac:(lia)).
       set (err' := ((err * x) / (PREC * (Z.of_nat k + 2)))%Z).
       assert (He' : (0 <= err')%Z) by (apply err_step_nonneg; lia).
+      rewrite (Z.abs_eq err' He').
       pose proof Sr_pos as HS. pose proof X_pos as HX.
       assert (Hk2 : 0 < INR (k + 2)) by (apply lt_0_INR; lia).
       assert (Hk2Z : IZR (Z.of_nat k + 2) = INR (k + 2)).
@@ -426,29 +427,6 @@ Proof.
     assert (Hden : 0 < 6 * (s * s * s)).
     { assert (0 < s * s) by nra. nra. }
     unfold Rdiv. apply Rmult_lt_compat_r; [apply Rinv_0_lt_compat; exact Hden|]. exact HZ.
-Qed.
-
-(* negative argument: the error term keeps the sign of x^(n+1), so on every other
-   iteration `upper` lies BELOW the partial sum *)
-Lemma exp_cmp_neg_x_refuted_proof :
-  exp (Rabs (IZR (- PREC) / IZR PREC)) <= IZR 3 /\
-  estimation (ref_exp_cmp 2 (- PREC) 3 (2 * 10 ^ 33)) = GT /\
-  IZR (2 * 10 ^ 33) / IZR PREC < exp (IZR (- PREC) / IZR PREC).
-Proof.
-  assert (HS : 0 < IZR PREC) by (apply IZR_lt; exact PREC_pos).
-  assert (E : IZR (- PREC) / IZR PREC = Ropp 1).
-  { rewrite opp_IZR. field. lra. }
-  rewrite E. split; [|split].
-  - rewrite Rabs_Ropp, Rabs_R1. exact exp_le_3.
-  - vm_compute. reflexivity.
-  - rewrite exp_Ropp.
-    assert (E5 : IZR (2 * 10 ^ 33) / IZR PREC = / 5).
-    { replace (IZR PREC) with (5 * IZR (2 * 10 ^ 33)).
-      - field. apply not_0_IZR. vm_compute. discriminate.
-      - replace 5 with (IZR 5) by reflexivity. rewrite <- mult_IZR. apply f_equal. vm_compute. reflexivity. }
-    rewrite E5. apply Rinv_lt_contravar.
-    + pose proof (exp_pos 1). lra.
-    + pose proof exp_le_3. lra.
 Qed.
 
 Lemma exp_cmp_sound_outside_margin_proof : forall max_n x bound cmp,
